@@ -326,7 +326,13 @@ def run_case(case, ctx):
                 classes.append('scaled')
             else:
                 classes.append('mixed')
-        q = MinMaxWeight(bits, C)
+        if case['seed'] % 4 == 2 and bits != 0:
+            # (declared bit-width moved through the public setter after construction)
+            q = MinMaxWeight(rng.choice([b for b in (2, 3, 4, 5, 6, 7, 8) if b != bits]), C)
+            q.precision = bits
+            ctx.cls('w-precision-set-after-construction')
+        else:
+            q = MinMaxWeight(bits, C)
         qi, qf = run_quantizer_pair(q, x)
         check_weight(ctx, x, qi, qf, q.scale, bits, 'random', {'classes': classes,
                                                              'shape': list(shape)})
@@ -343,9 +349,17 @@ def run_case(case, ctx):
         if rng.random() < 0.5:
             x = torch.rand(n, generator=g) * clip * 1.3 - 0.1 * clip
         x = x.float()
-        q = PACTAct(bits, init_clip_val=clip)
+        if case['seed'] % 4 == 3:
+            # the declared bit-width moved after construction (public `precision` setter of the
+            # quantizers' base class): the object must behave as one built at that precision
+            q = PACTAct(rng.choice([b for b in (2, 3, 4, 5, 6, 7, 8) if b != bits]),
+                        init_clip_val=clip)
+            q.precision = bits
+            ctx.cls('a-precision-set-after-construction')
+        else:
+            q = PACTAct(bits, init_clip_val=clip)
         qi, qf = run_quantizer_pair(q, x)
-        check_act(ctx, x, qi, qf, q.scale, bits, float(q.clip_val.data[0]), 'random')
+        check_act(ctx, x, qi, qf, q.scale, int(q.precision), float(q.clip_val.data[0]), 'random')
         if len(set(qi.tolist())) >= 2:
             ctx.nontriv(('arand', bits, case['seed']))
         ctx.cls(f'a-b{bits}')
